@@ -7,10 +7,7 @@ namespace MongoModel.Proofs.C08Lemmas
 open MongoModel MongoModel.Spec
 
 /-- the state left by one insert of a batch when it is rejected -/
-def rejected (now : Int) (c : Coll) (fs : Fields) : Coll :=
-  match expire now (if dhas "_id" fs then c else { c with nextOid := c.nextOid + 1 }) with
-  | .ok x => x
-  | .error _ => if dhas "_id" fs then c else { c with nextOid := c.nextOid + 1 }
+def rejected (now : Int) (c : Coll) (fs : Fields) : Coll := insertRejected now c (.doc fs)
 
 theorem ins1_ok (cfg : Cfg) (now : Int) (c c' : Coll) (fs : Fields) (id : Val)
     (h : insertDoc now c (.doc fs) = .ok (c', id)) :
